@@ -55,7 +55,7 @@ func init() {
 		Run:         run,
 		Floors: func(t string) map[string]int64 {
 			return map[string]int64{"runs.free": 1000, "runs.perturbed": 300, "runs.forced": 200, "window.forced_observed": 100, "keep.tags": 100, "keep.bounds": 100, "keep.all": 100,
-				"order.shuffled": 20, "order.ways_first": 10, "doc.relation_cycle": 10, "doc.dangling": 3, "filter.checked": 100, "gomaxprocs.16": 50, "format.pbf": 300, "format.xml": 1000}
+				"order.shuffled": 20, "order.ways_first": 10, "order.reverse_cascade": 10, "doc.cascade": 30, "doc.relation_cycle": 10, "doc.dangling": 3, "filter.checked": 100, "gomaxprocs.16": 50, "format.pbf": 300, "format.xml": 1000}
 		},
 	})
 }
@@ -160,6 +160,31 @@ func genDoc(c *core.Ctx, r *gen.R) *doc {
 		d.nodes = append(d.nodes, n)
 	}
 	nw := r.IntRange(0, 15)
+	cascade := r.Chance(0.45)
+	var cascadeWays []int
+	if cascade {
+		// a chain that KeepBounds must follow outwards: way A straddles the box (one node
+		// inside, one outside), B1 lies outside and shares A's outside node, B2 shares B1's …;
+		// each link of the chain is only selected once the previous one's outside node is stored
+		c.Count("doc.cascade")
+		base := int64(len(d.nodes))
+		in := dnode{ID: base + 1, Lon: normCoord(r.Range(10.05, 10.95)), Lat: normCoord(r.Range(20.05, 20.95))}
+		d.nodes = append(d.nodes, in)
+		k := r.IntRange(2, 5)
+		prev := in.ID
+		for j := 0; j < k; j++ {
+			out := dnode{ID: base + 2 + int64(j), Lon: normCoord(r.Range(11.5, 13)), Lat: normCoord(r.Range(18, 23))}
+			d.nodes = append(d.nodes, out)
+			w := dway{ID: int64(150 + j), Nodes: []int64{prev, out.ID}}
+			if r.Chance(0.3) {
+				w.Nodes = append(w.Nodes, out.ID+1000*0) // harmless repeat
+			}
+			cascadeWays = append(cascadeWays, len(d.ways))
+			d.ways = append(d.ways, w)
+			prev = out.ID
+		}
+		nn = len(d.nodes)
+	}
 	for i := 0; i < nw; i++ {
 		w := dway{ID: int64(100 + i), Tags: randTags(r, 0.25)}
 		for k := r.IntRange(2, 6); k > 0; k-- {
@@ -176,8 +201,8 @@ func genDoc(c *core.Ctx, r *gen.R) *doc {
 			case 0:
 				rel.Members = append(rel.Members, member{'n', d.nodes[r.Intn(nn)].ID})
 			case 1, 2:
-				if nw > 0 {
-					rel.Members = append(rel.Members, member{'w', d.ways[r.Intn(nw)].ID})
+				if len(d.ways) > 0 {
+					rel.Members = append(rel.Members, member{'w', d.ways[r.Intn(len(d.ways))].ID})
 				}
 			default:
 				ref := int64(200 + r.Intn(nr)) // any relation, also later ones and itself: chains and cycles
@@ -196,7 +221,8 @@ func genDoc(c *core.Ctx, r *gen.R) *doc {
 		// a dangling reference
 		c.Count("doc.dangling")
 		if nw > 0 && r.Bool() {
-			d.ways[r.Intn(nw)].Nodes = append(d.ways[r.Intn(nw)].Nodes[:1], 9999)
+			wi := len(d.ways) - 1 - r.Intn(nw) // one of the random ways, not the cascade
+			d.ways[wi].Nodes = append(d.ways[wi].Nodes[:1], 9999)
 		} else if nr > 0 {
 			d.rels[r.Intn(nr)].Members = append(d.rels[r.Intn(nr)].Members, member{'w', 9998})
 		} else {
@@ -212,7 +238,43 @@ func genDoc(c *core.Ctx, r *gen.R) *doc {
 	for i := range d.rels {
 		d.order = append(d.order, elem{'r', i})
 	}
-	switch r.Intn(5) {
+	ord := r.Intn(5)
+	if cascade && r.Chance(0.4) {
+		ord = 5
+	}
+	switch ord {
+	case 5:
+		// the chain in reverse dependency order around the nodes: later links first, then
+		// all nodes, then the straddling way (each pass can only extend the chain by one link)
+		d.desc = "reverse_cascade"
+		var o []elem
+		first := cascadeWays[0]
+		for i := len(cascadeWays) - 1; i >= 1; i-- {
+			o = append(o, elem{'w', cascadeWays[i]})
+		}
+		for _, e := range d.order {
+			if e.kind == 'n' {
+				o = append(o, e)
+			}
+		}
+		o = append(o, elem{'w', first})
+		for _, e := range d.order {
+			if e.kind == 'r' {
+				o = append(o, e)
+			}
+			if e.kind == 'w' {
+				isC := false
+				for _, cw := range cascadeWays {
+					if cw == e.idx {
+						isC = true
+					}
+				}
+				if !isC {
+					o = append(o, e)
+				}
+			}
+		}
+		d.order = o
 	case 0, 1:
 		d.desc = "canonical"
 	case 2, 3:
@@ -574,13 +636,34 @@ func rules(d *doc, r *gen.R) []rule {
 			}
 		}
 	}
-	// a random subset of at most three
-	p := r.Perm(len(out))
+	// up to two rules whose held object lies outside the box (it can only be stored as a
+	// dependency, i.e. in a later pass, where fewer other stores ask for another pass), then
+	// random ones, at most four in all
+	inBox := map[int64]bool{}
+	for _, n := range d.nodes {
+		if n.Lon >= d.box.Min.X && n.Lon <= d.box.Max.X && n.Lat >= d.box.Min.Y && n.Lat <= d.box.Max.Y {
+			inBox[n.ID] = true
+		}
+	}
 	var sel []rule
+	p := r.Perm(len(out))
 	for _, i := range p {
-		sel = append(sel, out[i])
-		if len(sel) == 3 {
+		if out[i].holdKind == 'n' && !inBox[out[i].holdID] && len(sel) < 2 {
+			sel = append(sel, out[i])
+		}
+	}
+	for _, i := range p {
+		if len(sel) >= 4 {
 			break
+		}
+		dup := false
+		for _, s := range sel {
+			if s == out[i] {
+				dup = true
+			}
+		}
+		if !dup {
+			sel = append(sel, out[i])
 		}
 	}
 	return sel
